@@ -33,7 +33,7 @@ def gen_akey(rng, shape):
 
 
 def cases(rng, tier):
-    n = {"quick": 220, "thorough": 3000, "search": 900}[tier]
+    n = {"quick": 500, "thorough": 3000, "search": 900}[tier]
     maxlen = 10 if tier == "thorough" else 4
     out = []
     for _ in range(n):
